@@ -145,6 +145,17 @@ class Struct:
             else:
                 self.formula = beta('b0') + cat('outer', {'plain': beta('b1') * x1, 'rich': beta('b2') * inner})
             self.hand = lambda cfg: beta('b0') + (beta('b1') * x1 if cfg['outer'] == 'plain' else beta('b2') * I()[cfg['inner']])
+        elif name == 'nested-both':
+            # each alternative of the outer catalog holds its own inner catalog; a third catalog shares the controller of one
+            self.sizes = {'outer': ['left', 'right'], 'innerL': ['a', 'b', 'c', 'd', 'e'], 'innerR': ['u', 'v']}
+            L = lambda: {'a': x1, 'b': x1 * x1, 'c': ex.log(x1), 'd': -x1, 'e': x1 + 2}
+            R = lambda: {'u': beta('b2') * x2, 'v': beta('b2') * ex.exp(x2)}
+            innerL = cat('innerL', L())
+            innerR = cat('innerR', R())
+            again = cat('innerR_again', R(), innerR.controlled_by)
+            self.formula = cat('outer', {'left': beta('b1') * innerL, 'right': innerR + x3}) + again
+            self.hand = lambda cfg: (beta('b1') * L()[cfg['innerL']] if cfg['outer'] == 'left' else R()[cfg['innerR']] + x3) \
+                + R()[cfg['innerR']]
         elif name == 'three-controllers':
             self.sizes = {'c1': ['a', 'b'], 'c2': ['m', 'n'], 'c3': ['s', 't', 'u', 'v']}
             A = lambda: {'a': beta('b1') * x1, 'b': beta('b1') * x1 * x1}
@@ -432,11 +443,11 @@ def scenario_modify(c, decide):
 
 def items_for(tier):
     items = []
-    for s in STRUCTS:
+    for s in STRUCTS + (['nested-both'] if tier == 'thorough' else []):
         items.append(('enumeration', s, None))
         for how in ('configuration', 'id', 'index'):
             items.append(('selection', s, how))
-        ncontrollers = {'three-controllers': 3, 'segmentation-max1': 1, 'segmentation-max2': 1, 'generic-altspec': 1}.get(s, 2)
+        ncontrollers = {'three-controllers': 3, 'nested-both': 3, 'segmentation-max1': 1, 'segmentation-max2': 1, 'generic-altspec': 1}.get(s, 2)
         for g in ['single', 'several'] + [f'pair{k}' for k in range(ncontrollers * (ncontrollers - 1))]:
             items.append(('operators', s, g))
     items.append(('modify', None, None))
